@@ -18,8 +18,9 @@ import (
 // C10: all southbound encodings describe the same change.
 
 type c10 struct {
-	h     *hist
-	wires []fixture.Forwarder
+	h       *hist
+	wires   []fixture.Forwarder
+	wireErr string
 }
 
 // gnmiForwarder: a production gNMI target (target.New: gnmic client, gRPC) with the given encoding, connected to a gNMI
@@ -82,7 +83,10 @@ func (c *c10) Setup(w *core.Worker) error {
 	for _, enc := range []string{"proto", "json", "json_ietf"} {
 		f, err := gnmiForwarder(enc)
 		if err != nil {
-			return fmt.Errorf("gNMI wire fixture (%s): %v", enc, err)
+			// no loopback gRPC here: the wire comparison is skipped (and counted), the views are still compared
+			c.wires = nil
+			c.wireErr = fmt.Sprintf("gNMI wire fixture (%s): %v", enc, err)
+			break
 		}
 		c.wires = append(c.wires, f)
 	}
@@ -185,6 +189,10 @@ func (c *c10) RunCase(w *core.Worker, idx int, seed uint64, res *core.CaseResult
 	run := c.h.start(rng, res, true, true)
 	defer run.close()
 	run.ds.Dev.Forward = c.wires
+	if c.wireErr != "" {
+		res.Count("gnmi_wire_fixture_unavailable", 1)
+		res.Tracef("%s", c.wireErr)
+	}
 	res.Tracef("pool=%s", poolName)
 	steps := 8
 	if w.Tier == "thorough" {
